@@ -73,7 +73,8 @@ type Record interface {
 
 // Add records the SAM record as having being located at the given chunk.
 func (i *Index) Add(r Record, bin uint32, c bgzf.Chunk, placed, mapped bool) error {
-	if !IsValidIndexPos(r.Start()) || !IsValidIndexPos(r.End()) {
+	// End is exclusive: the last base covered is End()-1.
+	if !IsValidIndexPos(r.Start()) || r.End() < -1 || (r.End() > 0 && !IsValidIndexPos(r.End()-1)) {
 		return errors.New("index: attempt to add record outside indexable range")
 	}
 
